@@ -245,8 +245,10 @@ def run(ctx):
             points = list(range(1, nwrites + 1))
             histories = [[k] for k in points]
             if not ctx.quick():
-                histories += [[a, c] for a in points for c in points if rng.random() < 0.25]
-                histories += [[rng.choice(points) for _ in range(3)] for _ in range(30)]
+                if getattr(ctx, 'stream', 0) > 0:
+                    histories = []      # every single crash point is enumerated by stream 0; the other streams add sequences only
+                histories += [[a, c] for a in points for c in points if rng.random() < 0.15]
+                histories += [[rng.choice(points) for _ in range(3)] for _ in range(20)]
             else:
                 histories += [[rng.choice(points), rng.choice(points)] for _ in range(4)] + [[rng.choice(points) for _ in range(3)] for _ in range(2)]
             for hist in histories:
